@@ -93,6 +93,11 @@ def main():
     if args.replay:
         sys.exit(do_replay(prop, args.replay))
 
+    rd = os.path.join(vf.BUILD, "replay")
+    if os.path.isdir(rd):
+        for f in os.listdir(rd):
+            if f.startswith(pid + "-"):
+                os.remove(os.path.join(rd, f))
     violations = []       # (replay path, suffix)
     known_lines = []
     problems = []         # broken obligations / correspondence (no concrete input yet)
